@@ -1,7 +1,7 @@
 ---- MODULE Trace_CsContract ----
 (* Trace validation of recorded executions of real consensus engines against CsContract.
    Lines (ndjson): {"ev":"init","t":id,"me":i,"h":height} starts a new execution; then
-   recv / sign / signprop / walwrite / walsync / restart / finalize events in the order in
+   recv / sign / signprop / walwrite / walvote / walsync / restart / finalize events in the order in
    which the engine's wrappers saw them.  Every guard of the contract is evaluated on every
    sign, send and finalize; violations are collected per execution and reported at the end. *)
 EXTENDS CsContract, Json
@@ -23,6 +23,7 @@ TNext ==
             /\ bad' = bad \cup Mark(e, SignPropViolations(st, ht, e.r, e.val, e.pol, e.mid) \cup SendViolations(st, e.mid))
             /\ st' = DoSignProp(st, e.r, e.val, e.pol, e.mid) /\ UNCHANGED <<tid, ht>>
        [] e.ev = "walwrite" -> st' = DoWalWrite(st, e.mid) /\ UNCHANGED <<tid, ht, bad>>
+       [] e.ev = "walvote" -> st' = DoWalVote(st, e.mid, e.type, e.r, e.val) /\ UNCHANGED <<tid, ht, bad>>
        [] e.ev = "walsync" -> st' = DoWalSync(st) /\ UNCHANGED <<tid, ht, bad>>
        [] e.ev = "restart" -> st' = DoRestart(st) /\ UNCHANGED <<tid, ht, bad>>
        [] e.ev = "finalize" ->
